@@ -394,7 +394,9 @@ func (h *vHarness) mkRequest(pool []vEmitter, kind int) (*spyv1.SubscribeSignedV
 	return req, strings.Join(parts, ",")
 }
 
-func (h *vHarness) deliverySequence() {
+// scale > 0: the sequence starts with that many registrations (hundreds of relayers on one listener) and then publishes;
+// nothing in the statement depends on how many subscriptions there are
+func (h *vHarness) deliverySequence(scale int) {
 	r := h.r
 	cid := h.cid("spy")
 	s := newSpyServer(zap.NewNop())
@@ -444,7 +446,11 @@ func (h *vHarness) deliverySequence() {
 	publish := func() {
 		var b []byte
 		dec := "err"
+		ep := 0
 		switch r.Intn(8) {
+		case 1: // what Marshal writes for a signed VAA with an EMPTY payload (Unmarshal rejects it; guardians do sign such messages)
+			b = h.mkVAAn(pool[r.Intn(len(pool))], 0, r.Intn(3))
+			ep = 1
 		case 0: // undecodable
 			switch r.Intn(3) {
 			case 0:
@@ -478,6 +484,12 @@ func (h *vHarness) deliverySequence() {
 		}
 		if late != nil { // unblock whatever it is stuck on, so the run can go on
 			stop := make(chan struct{})
+			// every channel in the server's table, including subscriptions the harness was told were refused: the stuck
+			// Publish holds the mutex, so nobody writes the map while this snapshot is taken
+			var chans []chan message
+			for _, sub := range s.subs {
+				chans = append(chans, vCh(sub))
+			}
 			go func() {
 				for {
 					select {
@@ -485,9 +497,9 @@ func (h *vHarness) deliverySequence() {
 						return
 					default:
 					}
-					for _, x := range subs {
+					for _, c := range chans {
 						select {
-						case <-vCh(x.sub):
+						case <-c:
 						default:
 						}
 					}
@@ -517,7 +529,7 @@ func (h *vHarness) deliverySequence() {
 		if len(parts) > 0 {
 			recv = strings.Join(parts, ";")
 		}
-		h.emit("spypub %s len=%d dec=%s res=%s recv=%s\n", cid, len(b), dec, res, recv)
+		h.emit("spypub %s len=%d dec=%s ep=%d res=%s recv=%s\n", cid, len(b), dec, ep, res, recv)
 	}
 	leave := func() {
 		l := live()
@@ -566,8 +578,14 @@ func (h *vHarness) deliverySequence() {
 		h.emit("spyleave %s id=%d how=%s res=%s removed=%d\n", cid, x.id, how, res, removed)
 	}
 	n0 := r.Intn(5)
-	for i := 0; i < n0; i++ {
+	if scale > 0 {
+		n0 = scale
+	}
+	for i := 0; (i < n0 || (scale > 0 && len(live()) < scale && i < 2*scale)) && h.stuck < 3; i++ {
 		subscribe()
+	}
+	for i := 0; scale > 0 && i < 3 && h.stuck < 3; i++ {
+		publish()
 	}
 	steps := 6 + r.Intn(8)
 	for i := 0; i < steps && h.stuck < 3; i++ {
@@ -1109,8 +1127,9 @@ func TestVerifSpy(t *testing.T) {
 			outs[i] = buf.String()
 		}(i, x)
 	}
+	h.deliverySequence(520 + h.r.Intn(200))
 	for i := 0; i < nseq && h.stuck < 3; i++ {
-		h.deliverySequence()
+		h.deliverySequence(0)
 		if i%2 == 0 && h.stuck < 3 {
 			h.slowScenario(h.cid("slow"))
 		}
